@@ -3,6 +3,7 @@ import Driver.Regex
 import Driver.SchemaDesc
 import JSV.Model.Marshal
 import JSV.Model.Clone
+import JSV.Model.Defaults
 import JSV.Model.Equal
 import JSV.Model.Hash
 import JSV.Model.Unmarshal
@@ -244,6 +245,51 @@ def handle (op : String) (args : Lean.Json) : Except String Lean.Json := do
         ("value", textOf (Go.marshal st' root)), ("clone_value", textOf (Go.marshal st' c)),
         ("shared", .num shared), ("count", .arr #[.num a.eraseDups.length, .num b.eraseDups.length])])])
     | .fuel => pure (Lean.Json.mkObj [("model", outcome "fuel")])
+    | _ => pure (Lean.Json.mkObj [("model", outcome "panic")])
+  | "defaults" =>
+    let base := ((getArg args "base").getStr?).toOption.getD ""
+    match ← buildUniverse args with
+    | .ok u =>
+      let jinsts : List Json ← match getArg args "insts" with
+        | .arr js => js.toList.mapM decodeJson
+        | _ => pure []
+      match doResolve u base with
+      | .ok rs =>
+        let env := mkVEnv u rs
+        if !Go.guarded env then
+          return Lean.Json.mkObj [("model", outcome "fuel")]
+        let vd := match Go.validateDefaults env Generated.supportedVersions validateFuelN rs.root with
+          | .ok _ => "ok" | .err => "error" | .panic => "panic" | .fuel => "fuel"
+        -- what the property says about ValidateDefaults: every default validates against its schema (Spec)
+        let senv := mkSpecEnv u rs
+        let rootOk := match u.st.get? rs.root with
+          | some rn => Generated.supportedVersions.contains rn.schema
+          | none => false
+        let specVd := if !rootOk then "error" else
+          if (Go.allNodes u.st (u.st.size + 2) [rs.root]).all (fun id =>
+              match u.st.get? id with
+              | some n => match n.default with
+                | some d => Spec.valid senv validateFuelN id d == some true
+                | none => true
+              | none => false) then "ok" else "error"
+        let hasDyn := (Go.allNodes u.st (u.st.size + 2) [rs.root]).any fun id =>
+          match u.st.get? id with | some n => n.dynamicRef != "" | none => false
+        let once := jinsts.map fun j => Go.applyDefaults env rs.root j
+        let twice := once.map fun r => match r with
+          | .ok j => Go.applyDefaults env rs.root j
+          | r => r
+        let enc (r : Res Json) : Lean.Json := match r with
+          | .ok j => Lean.Json.mkObj [("r", "ok"), ("value", encodeJson j)]
+          | .err => Lean.Json.mkObj [("r", "error")]
+          | .panic => Lean.Json.mkObj [("r", "panic")]
+          | .fuel => Lean.Json.mkObj [("r", "fuel")]
+        pure (Lean.Json.mkObj [("model", outcome "resolved" [
+          ("validateDefaults", str vd), ("specValidateDefaults", str specVd), ("hasDynamicRef", .bool hasDyn),
+          ("once", .arr (once.map enc).toArray), ("twice", .arr (twice.map enc).toArray)]), ("H", hList u)])
+      | .err => pure (Lean.Json.mkObj [("model", outcome "resolve-error"), ("H", hList u)])
+      | .panic => pure (Lean.Json.mkObj [("model", outcome "panic")])
+      | .fuel => pure (Lean.Json.mkObj [("model", outcome "fuel")])
+    | .err => pure (Lean.Json.mkObj [("model", outcome "unmarshal-error")])
     | _ => pure (Lean.Json.mkObj [("model", outcome "panic")])
   | "validate" => handleValidate args
   | "decorate" =>
